@@ -128,6 +128,14 @@ PROPS = {
                              'every file-system primitive reachable in LocalStorage is one of exists/mkdir/open/rmtree/iterdir/is_dir and is logged by its assumed contract (a new primitive leaves the fragment)',
                              'no concurrent mutation of the directory tree between the check and the use'],
                 design_ref='7/C18'),
+    'C19': dict(functions=['labtech.utils:LoggerFileProxy.__init__', 'labtech.utils:LoggerFileProxy.write', 'labtech.utils:LoggerFileProxy.flush',
+                           f'{PR}._subprocess_func', f'{PR}.wait'],
+                lemmas=[], replay='replay.c19',
+                assumptions=['TRUSTED causality of Manager().Queue: a put that returned in the child is visible to a later get_nowait in the parent; logging.handlers.QueueHandler.emit is a put; a result put happens after the child function returned',
+                             'A-run: user code reaches stdout/stderr only through the proxies (write/flush)',
+                             'records emitted directly through the labtech logger in the child go straight to the queue handler (no buffering in labtech code)',
+                             'given these, the three sequential contracts (proxy exactly-once, flush-before-result, drain-after-collect-before-yield) imply delivery exactly once before run_tasks returns'],
+                design_ref='7/C19'),
     'C17': dict(functions=[f'{TS}.complete_task', f'{TS}.start_task', f'{TS}.get_ready_tasks', f'{TC}.run', f'{LAB}.run_tasks',
                            f'{SR}.remove_results', f'{PR}.remove_results', f'{SR}.wait', f'{PR}.wait'],
                 lemmas=[], replay='replay.c17', standin='replay.explore',
